@@ -367,22 +367,32 @@ macro_rules! __priv_pa_find_skip_either {
     ) => {{
         let mut bytes = $crate::__priv_pa_bytes_accessor!(get, $accessor_args);
 
+        // Finds the first position where any pattern matches.
+        // The branches are ran outside of this loop so that
+        // `break`/`continue` inside of them don't refer to it.
         loop {
             match bytes {
                 $(
-                    $( $crate::$pat_proc_macro!(rem, $pattern))|* => {
-                        $crate::__priv_pa_bytes_accessor!(set, $accessor_args, rem);
-                        break $e
-                    }
+                    $( $crate::$pat_proc_macro!(_rem, $pattern))|* => break,
                 )*
                 _ => {
                     if let $split_first_pat = bytes {
                         bytes = $brem;
                     } else {
-                        break $default;
+                        break;
                     }
                 }
             }
+        }
+
+        match bytes {
+            $(
+                $( $crate::$pat_proc_macro!(rem, $pattern))|* => {
+                    $crate::__priv_pa_bytes_accessor!(set, $accessor_args, rem);
+                    $e
+                }
+            )*
+            _ => $default,
         }
     }}
 }
